@@ -26,6 +26,14 @@ CHECKS = {
    text="MC_C08 instantiates Verify.tla over one failing cause per stage x inspection command behaviours x inspection rules x a second inspection x a sub-layout inspection; TLC proves C08Order / C08Written (no inspection of a layout runs or writes its link before that layout's checks passed) and OkOnlyIfNec (non-zero exit, signal, not-found and inspection-rule failures are fatal). Replay runs the real commands and compares sentinel files and link files with the specification's MustNotRun set; inspect_start hook events are validated against it too.",
    note='Trusted: TLC; ring for the primitives; the harness concretisation (builders, real keys, real files); abstraction: perfect signatures, injective key ids. Small scope stated in the evidence; clock pinned through the guarded hook.',
    tech='TLA+ spec Verify.tla (pipeline state machine + requirement layer) model-checked with TLC; spec->impl replay of every TLC scenario through in_toto_verify; impl->spec trace validation of hook events (Trace_Verify.tla)'),
+ "C13": dict(cat="model_checking", ref="§4 C13",
+   text="Verify.tla keeps the choice of a step's representative link (and every other unordered-map iteration) nondeterministic; MC_C13 makes TLC compute, for every scenario with surplus differing links, the set of admissible (verdict, summary) pairs. The real verifier is run N times per scenario in-process (fresh hash seeds) and in fresh processes; the observation history is validated against Determinism.tla: every observation admitted by Verify.tla and all observations of one scenario equal.",
+   note='Trusted: TLC; ring for the primitives; the harness concretisation (builders, real keys, real files); abstraction: perfect signatures, injective key ids. Small scope stated in the evidence; clock pinned through the guarded hook.',
+   tech='TLA+ spec Verify.tla model-checked with TLC (nondeterministic Reduce) + observation-history validation against Determinism.tla'),
+ "C15": dict(cat="model_checking", ref="§4 C15",
+   text="MC_C15 instantiates Verify.tla (stack of frames) over every listed way a delegated sub-layout can be wrong x inner step sequences 1..3 x delegation depth 2 and 3; TLC proves OkOnlyIfNec with the recursive requirement (sub-layout signed by the authorised functionary it is filed under, unexpired, fully verified against its own sub-directory); replay compares the verdict and the returned summary link (first step's materials, last step's products / command / byproducts).",
+   note='Trusted: TLC; ring for the primitives; the harness concretisation (builders, real keys, real files); abstraction: perfect signatures, injective key ids. Small scope stated in the evidence; clock pinned through the guarded hook.',
+   tech='TLA+ spec Verify.tla model-checked with TLC; spec->impl replay through in_toto_verify on real directory trees; impl->spec trace validation (Trace_Verify.tla)'),
  "C03": dict(cat="model_checking", ref="§4 C03, §3.3",
    text="Rules.tla transcribes the in-toto specification's artifact-rule algorithm (functional form and a state machine with one Apply step per rule; TLC checks that both agree, that the queue only shrinks and that a rule only consumes artifacts its pattern / source prefix matches). TLC enumerates rule lists x item link states x referenced-step states; every scenario is run through the real rule engine and the verdict must equal the specification's; seeded random scenarios beyond the bounds (up to 4+4 rules, 6 paths, nested prefixes) are validated step by step (consumed set and remaining queue after every rule, hook in rulelib.rs) against Trace_Rules.tla.",
    note="Trusted: TLC, glob::Pattern (default options) as fnmatch, the harness builders. Inputs restricted to C03's own quantifier: normalised relative paths, portable glob syntax; '[' only in DISALLOW. Bounds: 3 paths, 57-rule alphabet, rule lists <= 2 in TLC (<= 4+4 in traces).",
